@@ -121,4 +121,56 @@ theorem charFromU32_toNat (c : Char) : charFromU32 c.toNat = some c := by
   simp [this, Char.ofNat_toNat]
 
 
+theorem escape_unit_roundtrip_aux (u : EscapeUnit) (h : u.Producible) (rest : List Char) :
+    lexEscape (printEscape u ++ rest) = some (u, rest) := by
+  cases u with
+  | literal c =>
+    have hc : c ≠ '\\' := h
+    simp [printEscape, lexEscape, hc]
+  | control b =>
+    have hb : b.toNat < 32 ∨ b.toNat = 127 := h
+    by_cases h28 : b = 0x1C
+    · subst h28
+      simp [printEscape, lexEscape, toAsciiUpper]
+    · have hlt : b.toNat < 256 := b.toNat_lt
+      have hne : b.toNat ≠ 28 := by
+        intro hh
+        apply h28
+        rw [← UInt8.ofNat_toNat (x := b), hh]
+        rfl
+      have hf := ctrl_facts ⟨b.toNat, hlt⟩ hb hne
+      simp only [UInt8.ofNat_toNat] at hf
+      obtain ⟨f1, f2, f3, f4, f5⟩ := hf
+      have hp : printEscape (.control b) = ['\\', 'c', Char.ofNat (b ^^^ 0x40).toNat] := by
+        simp only [printEscape, h28, if_false]
+      rw [hp]
+      generalize Char.ofNat (b ^^^ 0x40).toNat = ch at *
+      simp [lexEscape, f1, f2, f3, f4, f5]
+  | octal b =>
+    have hlt : b.toNat < 256 := b.toNat_lt
+    obtain ⟨_, h2⟩ := octDigits_octal3 b.toNat hlt rest
+    have h8 : b.toNat / 64 % 8 < 8 := Nat.mod_lt _ (by decide)
+    simp only [printEscape, octal3, List.cons_append, List.nil_append]
+    rw [lexEscape_octal_digit _ h8, h2]
+    simp only [if_pos hlt, UInt8.ofNat_toNat]
+  | hex b =>
+    have hlt : b.toNat < 256 := b.toNat_lt
+    simp only [printEscape, List.cons_append]
+    simp [lexEscape, hexDigits_upperHex2 _ hlt]
+  | unicode c =>
+    have hv : c.toNat < 1114112 := by
+      have := c.valid
+      have e : c.toNat = c.val.toNat := rfl
+      unfold Nat.isValidChar at this
+      omega
+    by_cases hs : c.toNat ≤ 0xFFFF
+    · have : c.toNat < 65536 := by omega
+      simp only [printEscape, hs, if_true, List.cons_append]
+      simp [lexEscape, hexDigits_lowerHex4 _ this, charFromU32_toNat]
+    · have : c.toNat < 4294967296 := by omega
+      simp only [printEscape, hs, if_false, List.cons_append]
+      simp [lexEscape, hexDigits_upperHex8 _ this, charFromU32_toNat]
+  | _ => simp [printEscape, lexEscape]
+
+
 end YashModel.Syntax
